@@ -333,3 +333,26 @@ def run (nowMS : Int) : C → Nat → List Part → Res
 def processParts (nowMS : Int) (parts : List Part) : Res := run nowMS {} 2 parts
 
 end Cfg
+
+namespace Cfg
+
+/-- outcome of `cfgFromRequest` (handler_livesim.go) for a parsable path and `?nowMS=` -/
+inductive Req where
+  | status (code : Nat)
+  | ok (nowMS : Int) (c : C) (idx : Nat)
+  deriving Inhabited
+
+/-- `cfgFromRequest`: parse, apply `timeoffset` to the instant, refuse instants before the start time.
+`int(timeoffset*1000)` is taken as the exact number of thousandths (true for the decimal forms with at most three
+fraction digits whose product is exact in binary: the generator uses multiples of 0.5). -/
+def effNow (nowMS : Int) (c : C) : Int :=
+  match c.toff with
+  | some (.fin m) => wrap64 (nowMS + m)
+  | _ => nowMS
+
+def cfgFromRequest (nowMS : Int) (parts : List Part) : Req :=
+  match processParts nowMS parts with
+  | .err => .status 400
+  | .ok c idx => if effNow nowMS c < c.start * 1000 then .status 425 else .ok (effNow nowMS c) c idx
+
+end Cfg
